@@ -147,10 +147,22 @@ func c01Check(c h.EdCase) h.Result {
 		out.panicked, out.pv = h.Catch(func() { out.ok = ed25519.VerifyExpandedWithOptions(epk, msg, sig, o) })
 		return
 	}
-	// judge compares one outcome with the expectation.
-	judge := func(fn, cfg string, got outcome, wantPanic, want bool) {
+	// judge compares one outcome with the expectation.  mayPanic: the flag set
+	// is the documented INCOMPATIBLE pair; the documentation does not say how the
+	// refusal is signalled (the panic list of VerifyWithOptions names lengths and
+	// nil options only), so a panic and a plain false are both fine - only an
+	// acceptance is not.
+	judge := func(fn, cfg string, got outcome, wantPanic, mayPanic, want bool) {
 		r.Eval(1)
 		switch {
+		case mayPanic && !wantPanic:
+			if got.panicked {
+				r.Class("incompatible-flag-pair:panics")
+			} else if got.ok {
+				r.Fail("ed25519."+fn+":accepts-under-incompatible-flag-pair", "config=%s %s", cfg, in())
+			} else {
+				r.Class("incompatible-flag-pair:returns-false")
+			}
 		case wantPanic && !got.panicked:
 			r.Fail("ed25519."+fn+":documented-panic-missing", "config=%s %s returned %v", cfg, in(), got.ok)
 		case !wantPanic && got.panicked:
@@ -163,9 +175,9 @@ func c01Check(c h.EdCase) h.Result {
 		}
 	}
 	both := func(cfg string, o *ed25519.Options, illegal, want bool) {
-		judge("VerifyWithOptions", cfg, plain(o), illegal || docPanic, want)
+		judge("VerifyWithOptions", cfg, plain(o), docPanic, illegal, want)
 		if epk != nil {
-			judge("VerifyExpandedWithOptions", cfg, expanded(o), illegal || optPanic, want)
+			judge("VerifyExpandedWithOptions", cfg, expanded(o), optPanic, illegal, want)
 		}
 	}
 
@@ -229,17 +241,17 @@ func c01Check(c h.EdCase) h.Result {
 	if variant == ref.EdPure {
 		var o outcome
 		o.panicked, o.pv = h.Catch(func() { o.ok = ed25519.Verify(pk, msg, sig) })
-		judge("Verify", "default", o, keyPanic, wDef)
+		judge("Verify", "default", o, keyPanic, false, wDef)
 		if epk != nil {
 			o = outcome{}
 			o.panicked, o.pv = h.Catch(func() { o.ok = ed25519.VerifyExpanded(epk, msg, sig) })
-			judge("VerifyExpanded", "default", o, false, wDef)
+			judge("VerifyExpanded", "default", o, false, false, wDef)
 		}
 	}
 	// nil options: documented panic
-	judge("VerifyWithOptions", "opts=nil", plain(nil), true, false)
+	judge("VerifyWithOptions", "opts=nil", plain(nil), true, false, false)
 	if epk != nil {
-		judge("VerifyExpandedWithOptions", "opts=nil", expanded(nil), true, false)
+		judge("VerifyExpandedWithOptions", "opts=nil", expanded(nil), true, false, false)
 	}
 
 	// verification must not write to its inputs
